@@ -4,7 +4,7 @@ from __future__ import annotations
 import ast
 from typing import Dict, List, Optional, Set, Tuple
 
-from .. import fx, q
+from .. import memo, fx, q
 from ..core import AnchorError, Ctx, FuncInfo, dotted, norm, walk_no_nested
 
 ID = "C10"
@@ -103,6 +103,7 @@ def designed_mutators(ctx: Ctx) -> Set[str]:
 
 def run(ctx: Ctx):
     an = fx.effects(ctx)
+    memo.check_memo_keys(ctx, ("",))
     entries = public_entries(ctx)
     if len(entries) < 150:
         raise AnchorError("qlasskit", f"only {len(entries)} public entry points enumerated (about 250 when the tables were frozen)")
